@@ -1,0 +1,93 @@
+/** \file include/mpi_dispatcher/verif_hooks.hpp
+** \brief Observation hooks for runtime verification of the job dispatcher. Compiled only with -DPOMEROL_VERIF.
+**
+** delay(site): env-seeded pseudo-random sleep (POMEROL_VERIF_DELAY_SEED, POMEROL_VERIF_DELAY_US, POMEROL_VERIF_DELAY_P);
+**              without these variables it does nothing.
+** event(kind,a,b): appends one line "seq mono_ns world_rank round kind a b" to $POMEROL_VERIF_LOG_DIR/rank<world_rank>.log
+**              (one write() per line, one file per process); without the variable it does nothing.
+*/
+#pragma once
+#ifdef POMEROL_VERIF
+
+#include <mpi.h>
+#include <cstdio>
+#include <cstdlib>
+#include <cstring>
+#include <ctime>
+#include <fcntl.h>
+#include <unistd.h>
+
+namespace pMPI {
+namespace verif {
+
+struct State {
+    bool init;
+    int world_rank;
+    int fd;
+    unsigned long seq;
+    unsigned long round;
+    unsigned long long rng;
+    long delay_us;
+    double delay_p;
+};
+
+inline State& state()
+{
+    static State s = { false, 0, -1, 0, 0, 0, 0, 0.0 };
+    if (!s.init) {
+        s.init = true;
+        int initialized = 0;
+        MPI_Initialized(&initialized);
+        if (initialized) MPI_Comm_rank(MPI_COMM_WORLD, &s.world_rank);
+        const char* dir = std::getenv("POMEROL_VERIF_LOG_DIR");
+        if (dir && *dir) {
+            char path[4096];
+            std::snprintf(path, sizeof path, "%s/rank%d.log", dir, s.world_rank);
+            s.fd = ::open(path, O_WRONLY | O_CREAT | O_APPEND, 0644);
+        }
+        const char* seed = std::getenv("POMEROL_VERIF_DELAY_SEED");
+        const char* us = std::getenv("POMEROL_VERIF_DELAY_US");
+        const char* p = std::getenv("POMEROL_VERIF_DELAY_P");
+        s.delay_us = us ? std::atol(us) : 0;
+        s.delay_p = p ? std::atof(p) : 0.5;
+        s.rng = (seed ? std::strtoull(seed, 0, 10) : 0ULL) * 0x9e3779b97f4a7c15ULL + 0x2545F4914F6CDD1DULL * (unsigned long long)(s.world_rank + 1);
+        if (!seed) s.delay_us = 0;
+    }
+    return s;
+}
+
+inline unsigned long long next(State& s)
+{
+    s.rng ^= s.rng << 13; s.rng ^= s.rng >> 7; s.rng ^= s.rng << 17;
+    return s.rng;
+}
+
+inline void delay(int site)
+{
+    State& s = state();
+    if (s.delay_us <= 0) return;
+    unsigned long long r = next(s) ^ (0x9e3779b97f4a7c15ULL * (unsigned long long)site);
+    double u = (double)(r >> 11) * (1.0 / 9007199254740992.0);
+    if (u >= s.delay_p) return;
+    long us = (long)(next(s) % (unsigned long long)(s.delay_us + 1));
+    if (us > 0) ::usleep((useconds_t)us);
+}
+
+inline void event(const char* kind, long a = -1, long b = -1)
+{
+    State& s = state();
+    if (s.fd < 0) return;
+    struct timespec ts;
+    clock_gettime(CLOCK_MONOTONIC, &ts);
+    char line[256];
+    int n = std::snprintf(line, sizeof line, "%lu %lld %d %lu %s %ld %ld\n", s.seq++,
+                          (long long)ts.tv_sec * 1000000000LL + ts.tv_nsec, s.world_rank, s.round, kind, a, b);
+    if (n > 0) { ssize_t w = ::write(s.fd, line, (size_t)n); (void)w; }
+}
+
+inline void next_round() { state().round++; }
+
+} // end of namespace verif
+} // end of namespace pMPI
+
+#endif // POMEROL_VERIF
